@@ -233,6 +233,9 @@ class ArrowDecimal128(ArrowDataType, dtypes.Decimal):
     type: Optional[pd.ArrowDtype] = dataclasses.field(default=None, init=False)
     precision: int = 28
     scale: int = 0
+    # the rounding mode is not part of a pyarrow decimal type: it must not be
+    # captured from the ambient decimal context when the type is created
+    rounding: Optional[str] = None
 
     def __post_init__(self):
         type_ = pd.ArrowDtype(pyarrow.decimal128(self.precision, self.scale))
